@@ -3,12 +3,15 @@ package eventloop
 import (
 	"context"
 	"fmt"
+	"os"
 	"reflect"
 	"sort"
 	"strings"
 	"sync"
 	"testing"
 	"time"
+
+	"github.com/relab/hotstuff"
 )
 
 // at most c14MaxPerFingerprint failures per fingerprint are forwarded (the shared helper keeps 200 in
@@ -20,7 +23,7 @@ var c14FailCount = map[string]int{}
 func c14Oracle(v *verifOut, ok bool, fingerprint, what string, input any) {
 	if !ok {
 		c14FailCount[fingerprint]++
-		if c14FailCount[fingerprint] > c14MaxPerFingerprint {
+		if c14FailCount[fingerprint] > c14MaxPerFingerprint && os.Getenv("VERIF_C14_ALLFAILS") == "" {
 			v.Count("oracle-failures-not-listed:" + fingerprint)
 			return
 		}
@@ -296,7 +299,12 @@ func c14QueueStreams(v *verifOut) {
 // unregister / tick operations with re-entrant recording handlers.
 // ---------------------------------------------------------------------------------------------
 
-const c14Types = 3
+const c14Types = 3    // harness event types 0..2
+const c14MaxTypes = 5 // + type 3 = hotstuff.ViewChangeEvent, type 4 = hotstuff.TimeoutEvent (context.go)
+const c14CtxBase = 1000
+
+// the real event types carry no serial: their View is the payload id and (per type) the serial
+func c14RealSer(t int, id uint64) uint64 { return uint64(t-2)<<40 | id }
 const c14MaxDepth = 6
 const c14MaxCalls = 400
 
@@ -310,8 +318,12 @@ func c14Mk(t int, id, ser uint64) any {
 		return c14Ev0{id, ser}
 	case 1:
 		return c14Ev1{id, ser}
-	default:
+	case 2:
 		return c14Ev2{id, ser}
+	case 3:
+		return hotstuff.ViewChangeEvent{View: hotstuff.View(id)}
+	default:
+		return hotstuff.TimeoutEvent{View: hotstuff.View(id)}
 	}
 }
 
@@ -323,6 +335,10 @@ func c14Unpack(ev any) (int, uint64, uint64, bool) {
 		return 1, e.ID, e.Ser, true
 	case c14Ev2:
 		return 2, e.ID, e.Ser, true
+	case hotstuff.ViewChangeEvent:
+		return 3, uint64(e.View), c14RealSer(3, uint64(e.View)), true
+	case hotstuff.TimeoutEvent:
+		return 4, uint64(e.View), c14RealSer(4, uint64(e.View)), true
 	}
 	return 0, 0, 0, false
 }
@@ -333,8 +349,12 @@ func c14Reg(el *EventLoop, t int, f func(t int, id, ser uint64), opts ...Handler
 		return Register(el, func(e c14Ev0) { f(0, e.ID, e.Ser) }, opts...)
 	case 1:
 		return Register(el, func(e c14Ev1) { f(1, e.ID, e.Ser) }, opts...)
-	default:
+	case 2:
 		return Register(el, func(e c14Ev2) { f(2, e.ID, e.Ser) }, opts...)
+	case 3:
+		return Register(el, func(e hotstuff.ViewChangeEvent) { f(3, uint64(e.View), c14RealSer(3, uint64(e.View))) }, opts...)
+	default:
+		return Register(el, func(e hotstuff.TimeoutEvent) { f(4, uint64(e.View), c14RealSer(4, uint64(e.View))) }, opts...)
 	}
 }
 
@@ -344,8 +364,12 @@ func c14TypeOf(t int) reflect.Type {
 		return reflect.TypeFor[c14Ev0]()
 	case 1:
 		return reflect.TypeFor[c14Ev1]()
-	default:
+	case 2:
 		return reflect.TypeFor[c14Ev2]()
+	case 3:
+		return reflect.TypeFor[hotstuff.ViewChangeEvent]()
+	default:
+		return reflect.TypeFor[hotstuff.TimeoutEvent]()
 	}
 }
 
@@ -355,8 +379,12 @@ func c14Delay(el *EventLoop, t int, ev any) {
 		DelayUntil[c14Ev0](el, ev)
 	case 1:
 		DelayUntil[c14Ev1](el, ev)
-	default:
+	case 2:
 		DelayUntil[c14Ev2](el, ev)
+	case 3:
+		DelayUntil[hotstuff.ViewChangeEvent](el, ev)
+	default:
+		DelayUntil[hotstuff.TimeoutEvent](el, ev)
 	}
 }
 
@@ -397,6 +425,11 @@ type c14Act struct {
 	RunAdd bool   `json:"runadd,omitempty"`
 	K      int    `json:"n,omitempty"`
 	Ticks  int    `json:"ticks,omitempty"` // "run": number of Tick steps el.Run was observed to perform (filled in after the run)
+	// ctxview (K = view bound, 0 = nil) / ctxtimeout / ctxcancel (K = number of the context): filled in after
+	// the run: the context's number and the registration numbers (= unregister closures) it owns
+	C    int   `json:"ctx,omitempty"`
+	Toks []int `json:"registrations,omitempty"`
+	Skip bool  `json:"skipped,omitempty"` // the operation could not be performed (no such context / closure)
 }
 
 func c14Event(t int, id uint64) string { return fmt.Sprintf("(%s, %s)", gN(uint64(t)), gN(id)) }
@@ -430,8 +463,22 @@ func c14ProgGallina(prog []c14Act) string {
 			for i := 0; i < a.Ticks; i++ {
 				ss = append(ss, "OTick")
 			}
+		case "ctxview":
+			// ViewContext = Register[ViewChangeEvent](prioritised, run-in-AddEvent)
+			ss = append(ss, fmt.Sprintf("OAct (AReg 3%%N %s true true)", gN(uint64(c14CtxBase+2*a.C))))
+		case "ctxtimeout":
+			// TimeoutContext = ViewContext(nil) + Register[TimeoutEvent](prioritised, run-in-AddEvent)
+			ss = append(ss, fmt.Sprintf("OAct (AReg 3%%N %s true true)", gN(uint64(c14CtxBase+2*a.C))),
+				fmt.Sprintf("OAct (AReg 4%%N %s true true)", gN(uint64(c14CtxBase+2*a.C+1))))
+		case "ctxcancel":
+			// the returned cancel function: unregister closures in the order context.go calls them
+			for _, k := range a.Toks {
+				ss = append(ss, "OAct (AUnreg "+gNat(k)+")")
+			}
 		default:
-			ss = append(ss, "OAct ("+a.gallina()+")")
+			if !a.Skip {
+				ss = append(ss, "OAct ("+a.gallina()+")")
+			}
 		}
 	}
 	return gList(ss)
@@ -454,6 +501,18 @@ type c14RegInfo struct {
 	prio, runadd bool
 	live         bool
 	unregs       int
+	silent       bool // registered by context.go itself: its invocations are not observable
+	ctx          int
+}
+
+type c14Ctx struct {
+	ctx     context.Context
+	cancel  context.CancelFunc
+	toks    []int  // registrations in the order the returned cancel function unregisters them
+	viewTok int    // the ViewChangeEvent registration
+	bound   uint64 // 0 = nil
+	timeout bool
+	want    bool // must be cancelled by now (event seen while registered, or cancel called)
 }
 
 type c14Ent struct {
@@ -497,7 +556,7 @@ type c14Run struct {
 	wrapped     []int    // depths of harness-made AddEvent calls in progress
 	refq        []uint64 // reference FIFO of pending events (serials), oldest first
 	pendReadd   uint64   // serial of a re-added event whose push is not yet accounted for (0 = none)
-	deferred    [c14Types][]uint64
+	deferred    [c14MaxTypes][]uint64
 	inTick      bool
 	tickType    int // type of the event popped by the current Tick (-1 = not yet known)
 	expect      []uint64
@@ -509,7 +568,10 @@ type c14Run struct {
 	nDeferred   int
 	nNested     int
 	tickFrom    int
-	tickLive    [c14Types][]int
+	tickLive    [c14MaxTypes][]int
+	nTypes      int
+	ctxs        []*c14Ctx
+	ctbl        [][]c14Act
 	inRun       bool
 	runPops     int
 	runCancel   func()
@@ -571,7 +633,7 @@ func (r *c14Run) onDrop(ev any) {
 func (r *c14Run) liveSet(t int, runadd bool) []int {
 	var out []int
 	for i, g := range r.regs {
-		if g.live && g.t == t && g.runadd == runadd {
+		if g.live && !g.silent && g.t == t && g.runadd == runadd {
 			out = append(out, i)
 		}
 	}
@@ -596,7 +658,7 @@ func (r *c14Run) checkDispatch(from, depth int, inadd bool, live []int, what str
 			seenOrdinary = true
 		}
 	}
-	if r.doubleUnreg || r.aborted {
+	if r.aborted {
 		return
 	}
 	a := append([]int{}, got...)
@@ -604,7 +666,20 @@ func (r *c14Run) checkDispatch(from, depth int, inadd bool, live []int, what str
 	sort.Ints(a)
 	sort.Ints(b)
 	if fmt.Sprint(a) != fmt.Sprint(b) {
-		r.fail("loop.dispatch:not-exactly-once", fmt.Sprintf("%s: handlers invoked (registration numbers) %v, registered at that moment %v", what, got, live))
+		missing := false
+		for _, x := range b {
+			found := false
+			for _, y := range a {
+				found = found || x == y
+			}
+			missing = missing || !found
+		}
+		if r.doubleUnreg && missing {
+			// an unregister closure was called more than once earlier: it must only ever remove its own handler
+			r.fail("loop.unregister:stale-closure-removed-another-handler", fmt.Sprintf("%s: handlers invoked (registration numbers) %v, but registered and never unregistered by their own closure: %v -- a second call of an older unregister closure removed a handler that reused its slot", what, got, live))
+		} else {
+			r.fail("loop.dispatch:not-exactly-once", fmt.Sprintf("%s: handlers invoked (registration numbers) %v, registered at that moment %v", what, got, live))
+		}
 	}
 }
 
@@ -619,7 +694,7 @@ func (r *c14Run) handler(reg int) func(t int, id, ser uint64) {
 			r.aborted = true
 			return
 		}
-		if r.inRun && r.depth == 0 && reg < c14Types {
+		if r.inRun && r.depth == 0 && reg < r.nTypes {
 			// Run popped the next event: the previous iteration is complete
 			if r.runPops > 0 {
 				r.endTick(true)
@@ -633,7 +708,7 @@ func (r *c14Run) handler(reg int) func(t int, id, ser uint64) {
 		}
 		r.trace = append(r.trace, c14Ent{kind: 'H', depth: r.depth, inadd: g.runadd, h: g.h, t: t, id: id, ser: ser, reg: reg})
 		// recorder duties (registrations 0..2*c14Types-1 are the recorders, see c14Prefix)
-		if reg < 2*c14Types {
+		if reg < 2*r.nTypes {
 			if g.runadd {
 				r.addedCnt[ser]++
 				isWrapped := len(r.wrapped) > 0 && r.wrapped[len(r.wrapped)-1] == r.depth
@@ -702,6 +777,10 @@ func (r *c14Run) do(a c14Act) {
 	case "add":
 		r.nextSer++
 		ser := r.nextSer
+		if a.T >= c14Types {
+			ser = c14RealSer(a.T, a.ID)
+			r.refContextsSee(a.T, a.ID)
+		}
 		live := r.liveSet(a.T, true)
 		from := len(r.trace)
 		r.wrapped = append(r.wrapped, r.depth)
@@ -737,13 +816,45 @@ func (r *c14Run) do(a c14Act) {
 		}
 		r.unregs = append(r.unregs, c14Reg(r.el, a.T, r.handler(reg), opts...))
 	case "unreg":
-		if a.K < len(r.unregs) {
-			r.regs[a.K].unregs++
-			if r.regs[a.K].unregs > 1 {
-				r.doubleUnreg = true // calling a stale closure may clear a reused slot; only the model is compared then
-			}
-			r.regs[a.K].live = false
+		if a.K < len(r.unregs) && r.unregs[a.K] != nil {
+			r.refUnregister(a.K)
 			r.unregs[a.K]()
+		}
+	case "ctxview", "ctxtimeout":
+		c := &c14Ctx{bound: uint64(a.K), timeout: a.Kind == "ctxtimeout"}
+		n := len(r.ctxs)
+		c.viewTok = len(r.regs)
+		r.regs = append(r.regs, c14RegInfo{t: 3, h: c14CtxBase + 2*n, prio: true, runadd: true, live: true, silent: true, ctx: n})
+		r.unregs = append(r.unregs, nil)
+		r.ctbl = append(r.ctbl, nil, nil)
+		if c.timeout {
+			c.bound = 0
+			toTok := len(r.regs)
+			r.regs = append(r.regs, c14RegInfo{t: 4, h: c14CtxBase + 2*n + 1, prio: true, runadd: true, live: true, silent: true, ctx: n})
+			r.unregs = append(r.unregs, nil)
+			// the TimeoutEvent handler calls ViewContext's cancel function, i.e. the view registration's closure
+			r.ctbl[2*n+1] = []c14Act{{Kind: "unreg", K: c.viewTok}}
+			c.toks = []int{toTok, c.viewTok}
+			c.ctx, c.cancel = r.el.TimeoutContext()
+		} else {
+			c.toks = []int{c.viewTok}
+			if c.bound == 0 {
+				c.ctx, c.cancel = r.el.ViewContext(nil)
+			} else {
+				b := hotstuff.View(c.bound)
+				c.ctx, c.cancel = r.el.ViewContext(&b)
+			}
+		}
+		c.want = r.el.Context().Err() != nil
+		r.ctxs = append(r.ctxs, c)
+	case "ctxcancel":
+		if a.K < len(r.ctxs) {
+			c := r.ctxs[a.K]
+			for _, k := range c.toks {
+				r.refUnregister(k)
+			}
+			c.want = true
+			c.cancel()
 		}
 	case "tick":
 		wantOK := len(r.refq) > 0
@@ -795,9 +906,61 @@ func (r *c14Run) do(a c14Act) {
 	}
 }
 
+// reference semantics of an unregister closure: it removes the handler it registered, once
+func (r *c14Run) refUnregister(k int) {
+	r.regs[k].unregs++
+	if r.regs[k].unregs > 1 {
+		r.doubleUnreg = true
+		return
+	}
+	r.regs[k].live = false
+}
+
+// a ViewChangeEvent / TimeoutEvent is being added: the contexts whose handlers are registered at this
+// moment see it inside AddEvent
+func (r *c14Run) refContextsSee(t int, id uint64) {
+	var fired []int
+	for i, g := range r.regs {
+		if g.live && g.silent && g.t == t {
+			fired = append(fired, i)
+		}
+	}
+	for _, i := range fired {
+		c := r.ctxs[r.regs[i].ctx]
+		if t == 3 {
+			if c.bound == 0 || id >= c.bound {
+				c.want = true
+			}
+		} else {
+			c.want = true
+			r.refUnregister(c.viewTok) // the timeout handler calls ViewContext's cancel function
+		}
+	}
+}
+
+// every context must be cancelled iff its view change / timeout was added while it was registered, or its
+// cancel function was called
+func (r *c14Run) checkContexts(after string) {
+	for n, c := range r.ctxs {
+		got := c.ctx.Err() != nil
+		kind := "ViewContext"
+		if c.timeout {
+			kind = "TimeoutContext"
+		}
+		if got != c.want && !r.aborted {
+			if c.want {
+				r.fail("loop.context:not-cancelled", fmt.Sprintf("%s #%d (view bound %d) is still live after %s, although its view change / timeout was added while its handler was registered and never unregistered by its owner", kind, n, c.bound, after))
+			} else {
+				r.fail("loop.context:cancelled-early", fmt.Sprintf("%s #%d (view bound %d) is cancelled after %s without its event or its cancel function", kind, n, c.bound, after))
+			}
+			c.want = got
+		}
+	}
+}
+
 // beginTick / endTick bracket the handling of one popped event (a Tick call, or one iteration of Run).
 func (r *c14Run) beginTick() {
-	for t := 0; t < c14Types; t++ {
+	for t := 0; t < r.nTypes; t++ {
 		r.tickLive[t] = r.liveSet(t, false)
 	}
 	r.tickFrom = len(r.trace)
@@ -825,20 +988,20 @@ func (r *c14Run) endTick(ok bool) {
 // prefix of every program: per type a prioritised recorder in slot 0 (the first to see every popped event)
 // and a prioritised run-in-AddEvent recorder in slot 1 (the first to see every added event); handler ids 0
 // and 1 have empty scripts and the generators never unregister them.
-func c14Prefix() []c14Act {
+func c14Prefix(nTypes int) []c14Act {
 	var p []c14Act
-	for t := 0; t < c14Types; t++ {
+	for t := 0; t < nTypes; t++ {
 		p = append(p, c14Act{Kind: "reg", T: t, H: 0, Prio: true})
 	}
-	for t := 0; t < c14Types; t++ {
+	for t := 0; t < nTypes; t++ {
 		p = append(p, c14Act{Kind: "reg", T: t, H: 1, Prio: true, RunAdd: true})
 	}
 	return p
 }
 
-func c14Epilogue(ticks int) []c14Act {
+func c14Epilogue(nTypes, ticks int) []c14Act {
 	var p []c14Act
-	for t := 0; t < c14Types; t++ {
+	for t := 0; t < nTypes; t++ {
 		p = append(p, c14Act{Kind: "add", T: t, ID: 900 + uint64(t)})
 	}
 	for i := 0; i < ticks; i++ {
@@ -848,10 +1011,15 @@ func c14Epilogue(ticks int) []c14Act {
 }
 
 func c14RunLoop(v *verifOut, s *verifStream, stream string, capacity int, tbl [][]c14Act, body []c14Act) {
-	prog := append(c14Prefix(), body...)
-	prog = append(prog, c14Epilogue(capacity+3)...)
+	c14RunLoopN(v, s, stream, capacity, tbl, body, c14Types)
+}
+
+// nTypes = 3: harness event types only; nTypes = 5: also ViewChangeEvent / TimeoutEvent (and contexts)
+func c14RunLoopN(v *verifOut, s *verifStream, stream string, capacity int, tbl [][]c14Act, body []c14Act, nTypes int) {
+	prog := append(c14Prefix(nTypes), body...)
+	prog = append(prog, c14Epilogue(nTypes, capacity+3)...)
 	meta := map[string]any{"stream": stream, "capacity": capacity, "handler_scripts": tbl, "program": prog}
-	r := &c14Run{v: v, meta: meta, capacity: capacity, tbl: tbl, tickType: -1,
+	r := &c14Run{v: v, meta: meta, capacity: capacity, tbl: tbl, tickType: -1, nTypes: nTypes,
 		addedCnt: map[uint64]int{}, popCnt: map[uint64]int{}, dropCnt: map[uint64]int{}}
 	lg := &c14Logger{}
 	lg.drop = r.onDrop
@@ -869,8 +1037,25 @@ func c14RunLoop(v *verifOut, s *verifStream, stream string, capacity int, tbl []
 			if r.aborted {
 				break
 			}
-			if a.Kind == "run" {
+			switch a.Kind {
+			case "run":
 				prog[i].Ticks = r.lastRunTicks
+			case "unreg":
+				prog[i].Skip = a.K >= len(r.unregs) || r.unregs[a.K] == nil
+				if a.K >= len(r.unregs) {
+					prog[i].Skip = false // the model ignores a closure that does not exist, too
+				}
+			case "ctxview", "ctxtimeout":
+				prog[i].C = len(r.ctxs) - 1
+				prog[i].Toks = r.ctxs[len(r.ctxs)-1].toks
+			case "ctxcancel":
+				if a.K < len(r.ctxs) {
+					prog[i].C = a.K
+					prog[i].Toks = r.ctxs[a.K].toks
+				}
+			}
+			if len(r.ctxs) > 0 {
+				r.checkContexts(fmt.Sprintf("operation %d (%s)", i, a.Kind))
 			}
 		}
 	}()
@@ -894,7 +1079,7 @@ func c14RunLoop(v *verifOut, s *verifStream, stream string, capacity int, tbl []
 	}
 	// events still waiting for their type must be exactly the deferred ones not yet re-added, in order
 	// (in-package read of the anchored state waitingEvents; a lost list is otherwise only seen much later)
-	for t := 0; t < c14Types; t++ {
+	for t := 0; t < nTypes; t++ {
 		var have []uint64
 		r.el.mut.Lock()
 		for _, ev := range r.el.waitingEvents[c14TypeOf(t)] {
@@ -927,7 +1112,7 @@ func c14RunLoop(v *verifOut, s *verifStream, stream string, capacity int, tbl []
 	for i, e := range r.trace {
 		obs[i] = e.gallina()
 	}
-	key := fmt.Sprintf("l%d|%s|%s", capacity, c14TblGallina(tbl), c14ProgGallina(prog[2*c14Types:len(prog)-c14Types-capacity-3]))
+	key := fmt.Sprintf("l%d|%s|%s", capacity, c14TblGallina(tbl), c14ProgGallina(prog[2*nTypes:len(prog)-nTypes-capacity-3]))
 	nontrivial := r.overflowed || r.nDeferred > 0 || r.nNested > 0
 	v.Seen(key, nontrivial, map[string]any{"capacity": capacity, "ops": len(body), "overflowed": r.overflowed, "deferred": r.nDeferred, "nested_handler_calls": r.nNested})
 	if r.overflowed {
@@ -946,7 +1131,11 @@ func c14RunLoop(v *verifOut, s *verifStream, stream string, capacity int, tbl []
 		v.Count("loop:prog-with-Run")
 	}
 	v.Count("loop:" + stream)
-	v.Case(s, fmt.Sprintf("(%s, %s, %s, %s)", gNat(capacity), c14TblGallina(tbl), c14ProgGallina(prog), gList(obs)), meta)
+	if len(r.ctxs) > 0 {
+		v.Count("loop:prog-with-contexts")
+		meta["context_handler_scripts"] = r.ctbl
+	}
+	v.Case(s, fmt.Sprintf("(%s, %s, %s, %s, %s)", gNat(capacity), c14TblGallina(tbl), c14TblGallina(r.ctbl), c14ProgGallina(prog), gList(obs)), meta)
 }
 
 func c14RandAct(v *verifOut, nextID *uint64, nTokens int, allowTick bool) c14Act {
@@ -1068,6 +1257,7 @@ func c14LoopStreams(v *verifOut) {
 		{Kind: "add", T: 0, ID: 8}, {Kind: "tick"}, {Kind: "tick"}, {Kind: "unreg", K: 6}, {Kind: "unreg", K: 6},
 		{Kind: "add", T: 0, ID: 9}, {Kind: "tick"}, {Kind: "tick"}, {Kind: "tick"}, {Kind: "tick"}})
 	c14HardenedLoopStreams(v, s)
+	c14ContextStreams(v, s)
 }
 
 // Directed families for dimensions the random stream reaches only by luck.
@@ -1247,6 +1437,110 @@ func c14HardenedLoopStreams(v *verifOut, s *verifStream) {
 				c14RunLoop(v, s, "run", capacity, rtbl, body)
 			}
 		}
+	}
+}
+
+// ViewContext / TimeoutContext (context.go) register prioritised run-in-AddEvent handlers of their own and
+// hand out cancel functions that call unregister closures -- some of them twice (TimeoutContext after a
+// timeout; any cancel function called twice).  Programs: create contexts, add view changes / timeouts,
+// cancel, in all orders, interleaved with Register / unregister of ordinary handlers for the same types.
+func c14ContextStreams(v *verifOut, s *verifStream) {
+	// handler ids: 2 = ordinary observer, 3 = adds a type-0 event, 4 = unregisters registration 10, 5 = registers a new
+	// ViewChangeEvent observer (handler 2).  Registrations 10, 11, 12 are made first in every program.
+	tbl := [][]c14Act{{}, {}, {}, {{Kind: "add", T: 0, ID: 30}}, {{Kind: "unreg", K: 10}}, {{Kind: "reg", T: 3, H: 2}}}
+	head := []c14Act{{Kind: "reg", T: 3, H: 2}, {Kind: "reg", T: 4, H: 3, Prio: true}, {Kind: "reg", T: 3, H: 4, RunAdd: true}}
+
+	// (i) directed: context A, an event, a second registration B (a context of any kind or a plain handler, which
+	//     reuses a slot A may have freed), A's cancel before or after the next event, B's cancel, A's cancel again
+	kinds := []c14Act{{Kind: "ctxview"}, {Kind: "ctxview", K: 3}, {Kind: "ctxtimeout"}}
+	events := [][]c14Act{{}, {{Kind: "add", T: 3}}, {{Kind: "add", T: 4}}}
+	for _, A := range kinds {
+		for bi := 0; bi < 4; bi++ {
+			for _, E1 := range events {
+				for early := 0; early < 2; early++ {
+					for _, E2 := range events {
+						for twice := 0; twice < 2; twice++ {
+							view := uint64(1)
+							stamp := func(es []c14Act) []c14Act {
+								out := append([]c14Act{}, es...)
+								for i := range out {
+									view += 2
+									out[i].ID = view
+								}
+								return out
+							}
+							body := append([]c14Act{}, head...)
+							body = append(body, A)
+							body = append(body, stamp(E1)...)
+							if bi < 3 {
+								body = append(body, kinds[bi])
+							} else {
+								body = append(body, c14Act{Kind: "reg", T: 3, H: 2, Prio: true})
+							}
+							if early == 1 {
+								body = append(body, c14Act{Kind: "ctxcancel", K: 0})
+							}
+							body = append(body, stamp(E2)...)
+							body = append(body, c14Act{Kind: "tick"})
+							if early == 0 {
+								body = append(body, c14Act{Kind: "ctxcancel", K: 0})
+							}
+							if twice == 1 {
+								body = append(body, c14Act{Kind: "ctxcancel", K: 0})
+							}
+							body = append(body, stamp([]c14Act{{Kind: "add", T: 3}})...)
+							if bi < 3 {
+								body = append(body, c14Act{Kind: "ctxcancel", K: 1})
+							}
+							body = append(body, c14Act{Kind: "tick"}, c14Act{Kind: "tick"})
+							body = append(body, stamp([]c14Act{{Kind: "add", T: 4}, {Kind: "add", T: 3}})...)
+							c14RunLoopN(v, s, "contexts", 8, tbl, body, c14MaxTypes)
+						}
+					}
+				}
+			}
+		}
+	}
+
+	// (ii) random mixes, including double calls of ordinary unregister closures
+	nRand := v.Pick(700, 8000)
+	for i := 0; i < nRand; i++ {
+		capacity := 2 + v.rng.Intn(8)
+		n := 4 + v.rng.Intn(v.Pick(14, 24))
+		body := append([]c14Act{}, head...)
+		view := uint64(0)
+		regs, ctxs := 3, 0
+		for j := 0; j < n; j++ {
+			x := v.rng.Intn(100)
+			switch {
+			case x < 12:
+				body = append(body, c14Act{Kind: "ctxtimeout"})
+				ctxs++
+				regs += 2
+			case x < 22:
+				body = append(body, c14Act{Kind: "ctxview", K: v.rng.Intn(2) * int(view+uint64(v.rng.Intn(4)))})
+				ctxs++
+				regs++
+			case x < 40:
+				view++
+				body = append(body, c14Act{Kind: "add", T: 3, ID: view})
+			case x < 52:
+				view++
+				body = append(body, c14Act{Kind: "add", T: 4, ID: view})
+			case x < 68:
+				body = append(body, c14Act{Kind: "ctxcancel", K: v.rng.Intn(ctxs + 1)})
+			case x < 78:
+				body = append(body, c14Act{Kind: "reg", T: 3 + v.rng.Intn(2), H: 2 + v.rng.Intn(4), Prio: v.rng.Intn(2) == 0, RunAdd: v.rng.Intn(3) == 0})
+				regs++
+			case x < 88:
+				body = append(body, c14Act{Kind: "unreg", K: 2*c14MaxTypes + v.rng.Intn(regs+1)})
+			case x < 92:
+				body = append(body, c14Act{Kind: "add", T: v.rng.Intn(c14Types), ID: 100 + uint64(j)})
+			default:
+				body = append(body, c14Act{Kind: "tick"})
+			}
+		}
+		c14RunLoopN(v, s, "contexts-random", capacity, tbl, body, c14MaxTypes)
 	}
 }
 
